@@ -1,9 +1,12 @@
 (* C08 — layout does not change meaning.  Statements only; proofs in Proofs/C08Proofs.v.
    PARTIAL: the lexical invariances below are proved for every state of the regenerated
-   scanner and every configuration; their lift to whole documents and catalogs (trivia at
-   clean cut points, explicit vs implicit context, re-indentation) is covered by the
-   metamorphic correspondence run, not by a theorem yet. *)
-From JS Require Import Base Bytes Scanner Core C08Proofs.
+   scanner and every configuration, and LF/CR and blank/tab interchangeability is lifted to
+   WHOLE FILES (Proofs/LayoutBytes.v: same lexemes, same end, for every pair of files that
+   differ only in which newline / blank byte stands at each position, given the same oracle
+   answers).  The other rewrites (CRLF, which changes offsets; trivia at clean cut points;
+   explicit vs implicit context; re-indentation) and the lift from lexemes to catalogs are
+   covered by the metamorphic correspondence run, not by a theorem. *)
+From JS Require Import Base Bytes Scanner Core C08Proofs LayoutBytes.
 From JS Require ScannerProg.
 
 (* in every state, for every configuration, data and oracle, LF and CR trigger exactly the
@@ -29,6 +32,28 @@ Theorem C08_annotation_styles :
   forall t, annotation (32%N :: t ++ [32%N]) = annotation (32%N :: t).
 Proof. exact annotation_styles_agree. Qed.
 
+(* WHOLE FILES: two files that differ only in the choice between LF and CR, and between blank and
+   tab, position by position, are scanned to the same lexemes (kinds and extents), end in the
+   same way (success, or the same error at the same byte) and leave the same configuration - for
+   every such pair, every oracle, every number of Next() calls, from every configuration *)
+Theorem C08_newline_and_blank_bytes_interchangeable_in_whole_files :
+  forall data data' olen fuel cf,
+    same_layout data data' ->
+    lex_all P NL WS data olen fuel cf = lex_all P NL WS data' olen fuel cf.
+Proof. exact newline_and_blank_bytes_are_interchangeable_in_whole_files. Qed.
+
+(* and the values of the lexemes differ only in those bytes *)
+Theorem C08_lexeme_values_differ_only_in_those_bytes :
+  forall data data' l, same_layout data data' ->
+    match lexeme_value data l, lexeme_value data' l with
+    | Some v, Some w => same_layout v w
+    | None, None => True
+    | _, _ => False
+    end.
+Proof. exact lexeme_values_keep_their_layout_class. Qed.
+
+Print Assumptions C08_newline_and_blank_bytes_interchangeable_in_whole_files.
+Print Assumptions C08_lexeme_values_differ_only_in_those_bytes.
 Print Assumptions C08_lf_cr_interchangeable.
 Print Assumptions C08_blank_tab_interchangeable.
 Print Assumptions C08_quoting.
